@@ -40,6 +40,101 @@ func clRestoreErrors(c *Ctx) {
 		undecidedf("restore path: only %d error-returning calls found", n)
 	}
 	clMandatoryManifest(c)
+	clManifestUse(c)
+}
+
+// Manifest reads of the restore: a checksum manifest that could be read is
+// always decoded (nothing else decides whether shards are verified), and a
+// missing delta file list is tolerated only after os.Stat showed that there is
+// no delta directory at all.
+func clManifestUse(c *Ctx) {
+	p := c.P
+	fn := p.Func("nitro", "Nitro", "LoadFromDisk")
+	fi := p.Info(fn)
+	type rd struct {
+		in  ssa.Instruction
+		lbl string
+	}
+	var reads []rd
+	for _, in := range fi.Instrs {
+		cc := callOf(in)
+		if cc == nil || cc.StaticCallee() == nil {
+			continue
+		}
+		if n := cc.StaticCallee().String(); n == "io/ioutil.ReadFile" || n == "os.ReadFile" {
+			reads = append(reads, rd{in, pathLabel(cc.Args[0])})
+		}
+	}
+	edgeHas := func(pb, sb *ssa.BasicBlock, ev ssa.Value, op token.Token) bool {
+		for f := range fi.EdgeFactSet(pb, sb) {
+			cmp, ok := cmpOf(f.V, f.Val)
+			if !ok || cmp.Op != op {
+				continue
+			}
+			x := cmp.X
+			if isNilConst(x) {
+				x = cmp.Y
+			} else if !isNilConst(cmp.Y) {
+				continue
+			}
+			if fi.resolveCell(x) == ev || x == ev {
+				return true
+			}
+		}
+		return false
+	}
+	isUnmarshalOf := func(bytes ssa.Value) func(ssa.Instruction) bool {
+		return func(x ssa.Instruction) bool {
+			cc := callOf(x)
+			if cc == nil || cc.StaticCallee() == nil || cc.StaticCallee().String() != "encoding/json.Unmarshal" {
+				return false
+			}
+			return fi.resolveCell(cc.Args[0]) == bytes || strip(cc.Args[0]) == bytes
+		}
+	}
+	n := 0
+	for i, r := range reads {
+		ev, _ := errResult(r.in)
+		if ev == nil {
+			continue
+		}
+		var bytesV ssa.Value
+		for _, ref := range referrersOf(r.in.(ssa.Value)) {
+			if e, ok := ref.(*ssa.Extract); ok && e.Index == 0 {
+				bytesV = e
+			}
+		}
+		// the next manifest read (or the end of the function) bounds the region this read governs
+		var next ssa.Instruction
+		if i+1 < len(reads) {
+			next = reads[i+1].in
+		}
+		target := func(x ssa.Instruction) bool {
+			if next != nil {
+				return x == next
+			}
+			r, ok := x.(*ssa.Return)
+			return ok && r.Block() != fn.Recover && !isNilConst(fi.RetVal(r, 0))
+		}
+		if strings.HasSuffix(r.lbl, "checksums.json") && bytesV != nil {
+			n++
+			skip := fi.PathAvoidingEdges(r.in, target, isUnmarshalOf(bytesV), func(pb, sb *ssa.BasicBlock) bool { return edgeHas(pb, sb, ev, token.NEQ) })
+			c.Check(skip == nil, fn, r.in, "a checksum manifest that was read is always decoded",
+				"some condition besides the read error decides whether "+r.lbl+" is used (e.g. the format version, itself read from an unprotected file): altering that input switches shard verification off and a damaged backup is restored silently")
+		}
+		if strings.HasSuffix(r.lbl, "files.json") && strings.Contains(r.lbl, "delta") {
+			n++
+			skip := fi.PathAvoidingEdges(r.in, target, func(x ssa.Instruction) bool {
+				cc := callOf(x)
+				return cc != nil && cc.StaticCallee() != nil && (cc.StaticCallee().String() == "os.Stat" || cc.StaticCallee().String() == "os.Lstat")
+			}, func(pb, sb *ssa.BasicBlock) bool { return edgeHas(pb, sb, ev, token.EQL) })
+			c.Check(skip == nil, fn, r.in, "a delta file list that cannot be read is tolerated only after the delta directory was examined",
+				"a missing delta/files.json is accepted although the delta directory exists: the delta shards are skipped and the items that only they contain are silently missing from the restored snapshot")
+		}
+	}
+	if n < 3 {
+		undecidedf("LoadFromDisk: only %d manifest reads of the expected kinds found", n)
+	}
 }
 
 // data/files.json is the one manifest every backup has: no path continues
